@@ -35,11 +35,16 @@ def run(ck):
                       "copy_file is run with the kernel copy available and with copy_file_range forced to EXDEV/EINVAL/ENOSYS (the user-space loop); plus a static scan of src/ for libc allocation calls")
     ck.assumptions += ["allocator.c is the only place allowed to call the C library's allocation functions"]
     if not ck.build_driver(): return
-    if not ck.prove(["ZixModel.Properties.C08", "ZixModel.Properties.C08Avl", "ZixModel.Properties.C08Hash", "ZixModel.Properties.C07Env"]):
+    if not ck.prove(["ZixModel.Properties.C08", "ZixModel.Properties.C08Avl", "ZixModel.Properties.C08Hash", "ZixModel.Properties.C07Env", "ZixModel.Properties.C08Ring"]):
         ck.report_proof_failure("allocator-discipline theorems no longer build")
     static_scan(ck)
     q = ck.tier == "quick"
     # environment expansion: allocator events per call (every block released once or returned: expandA_atomic_leak_free)
+    # the ring's constructor and destructor under refusal patterns (theorems ring_new_leak_free, ring_lifecycle_balanced)
+    import c05 as ringgen
+    rexe = ringgen.build_harness(ck)
+    if not rexe: return
+    ck.kcompare("ring", rexe, "c05", ringgen.alloc_histories(ck), corpus_prefix="ring", what="zix_ring_new / zix_ring_free under refused allocations differ from the model (result or allocator events)")
     import c16 as envgen
     eexe = envgen.build_harness(ck)
     if not eexe: return
